@@ -21,7 +21,7 @@ def ChainT (sel : List Str → Bool → Bool × Bool) (base : Nat) (p : List Str
 
 /-- the snapshot has an item with this path and kind -/
 def HasItem (names : List Str) (l : List Node) (p : List Str) (d f : Bool) : Prop :=
-  ∃ e ∈ entries names l, e.path = p ∧ e.isDir = d ∧ e.isFile = f
+  ∃ e ∈ entries names l, e.path = p ∧ e.isDir = d ∧ e.isFile = f ∧ e.sock = false
 
 theorem entries_cons' (names : List Str) (c : Node) (r : List Node) :
     entries names (c :: r) = entries names [c] ++ entries names r := by
@@ -35,7 +35,7 @@ theorem entries_prefix' (names : List Str) : ∀ (l : List Node) (e : Entry), e 
     rcases h with h | h
     · exact ⟨n, [], by rw [h]⟩
     · exact entries_prefix' names r e h
-  | .other n :: r, e, h => by
+  | .other n s :: r, e, h => by
     simp only [entries_other, List.mem_cons] at h
     rcases h with h | h
     · exact ⟨n, [], by rw [h]⟩
@@ -93,29 +93,37 @@ theorem tr_node_item (sel : List Str → Bool → Bool × Bool) (names : List St
         subst hev
         simp only [evItem, Option.some.injEq, Prod.mk.injEq] at hi
         rcases hi with ⟨rfl, rfl, rfl⟩
-        exact ⟨⟨_, rfl, rfl, rfl, rfl⟩, hs, chainT_top sel names n⟩
+        exact ⟨⟨_, rfl, rfl, rfl, rfl, rfl⟩, hs, chainT_top sel names n⟩
       · simp at hev
-    · rintro ⟨⟨e, rfl, rfl, rfl, rfl⟩, hs, _⟩
+    · rintro ⟨⟨e, rfl, rfl, rfl, rfl, _⟩, hs, _⟩
       simp only at hs
       rw [if_pos hs]
       exact ⟨Ev.visit (names ++ [n]) true, by simp, rfl⟩
-  | .other n, p, d, f => by
+  | .other n s, p, d, f => by
     unfold trNode HasItem
     simp only [entries_other, entries_nil, List.mem_singleton]
-    constructor
-    · rintro ⟨ev, hev, hi⟩
-      split at hev
-      · rename_i hs
-        simp only [List.mem_singleton] at hev
-        subst hev
-        simp only [evItem, Option.some.injEq, Prod.mk.injEq] at hi
-        rcases hi with ⟨rfl, rfl, rfl⟩
-        exact ⟨⟨_, rfl, rfl, rfl, rfl⟩, hs, chainT_top sel names n⟩
-      · simp at hev
-    · rintro ⟨⟨e, rfl, rfl, rfl, rfl⟩, hs, _⟩
-      simp only at hs
-      rw [if_pos hs]
-      exact ⟨Ev.visit (names ++ [n]) false, by simp, rfl⟩
+    cases s with
+    | true =>
+      simp only [if_true]
+      constructor
+      · rintro ⟨ev, hev, _⟩; simp at hev
+      · rintro ⟨⟨e, rfl, _, _, _, h⟩, _, _⟩; simp at h
+    | false =>
+      simp only [Bool.false_eq_true, if_false]
+      constructor
+      · rintro ⟨ev, hev, hi⟩
+        split at hev
+        · rename_i hs
+          simp only [List.mem_singleton] at hev
+          subst hev
+          simp only [evItem, Option.some.injEq, Prod.mk.injEq] at hi
+          rcases hi with ⟨rfl, rfl, rfl⟩
+          exact ⟨⟨_, rfl, rfl, rfl, rfl, rfl⟩, hs, chainT_top sel names n⟩
+        · simp at hev
+      · rintro ⟨⟨e, rfl, rfl, rfl, rfl, _⟩, hs, _⟩
+        simp only at hs
+        rw [if_pos hs]
+        exact ⟨Ev.visit (names ++ [n]) false, by simp, rfl⟩
   | .dir n ch, p, d, f => by
     have ih := tr_list_item sel (names ++ [n]) ch p d f
     unfold trNode HasItem
@@ -136,10 +144,10 @@ theorem tr_node_item (sel : List Str → Bool → Bool × Bool) (names : List St
             subst hev
             simp only [evItem, Option.some.injEq, Prod.mk.injEq] at hi
             rcases hi with ⟨rfl, rfl, rfl⟩
-            exact ⟨⟨_, Or.inl rfl, rfl, rfl, rfl⟩, hs1, chainT_top sel names n⟩
+            exact ⟨⟨_, Or.inl rfl, rfl, rfl, rfl, rfl⟩, hs1, chainT_top sel names n⟩
           · simp at hev
-        · rcases ih.mp ⟨ev, hev, hi⟩ with ⟨⟨e, he, h1, h2, h3⟩, h4, h5⟩
-          refine ⟨⟨e, Or.inr he, h1, h2, h3⟩, h4, ?_⟩
+        · rcases ih.mp ⟨ev, hev, hi⟩ with ⟨⟨e, he, h1, h2, h3, h3'⟩, h4, h5⟩
+          refine ⟨⟨e, Or.inr he, h1, h2, h3, h3'⟩, h4, ?_⟩
           rcases entries_prefix' (names ++ [n]) ch e he with ⟨m, rest, hr⟩
           rw [← h1, hr] at h5 ⊢
           exact (chainT_below sel names n m rest).mpr ⟨hs2, h5⟩
@@ -150,7 +158,7 @@ theorem tr_node_item (sel : List Str → Bool → Bool × Bool) (names : List St
           · simp only [List.mem_singleton] at hev
             subst hev
             simp [evItem] at hi
-      · rintro ⟨⟨e, he, h1, h2, h3⟩, h4, h5⟩
+      · rintro ⟨⟨e, he, h1, h2, h3, h3'⟩, h4, h5⟩
         rcases he with he | he
         · subst he
           simp only at h1 h2 h3
@@ -161,7 +169,7 @@ theorem tr_node_item (sel : List Str → Bool → Bool × Bool) (names : List St
           have h5' : ChainT sel (names ++ [n]).length p := by
             rw [← h1, hr] at h5 ⊢
             exact ((chainT_below sel names n m rest).mp h5).2
-          rcases ih.mpr ⟨⟨e, he, h1, h2, h3⟩, h4, h5'⟩ with ⟨ev, hev, hi⟩
+          rcases ih.mpr ⟨⟨e, he, h1, h2, h3, h3'⟩, h4, h5'⟩ with ⟨ev, hev, hi⟩
           exact ⟨ev, by simp only [List.mem_append]; exact Or.inl (Or.inr hev), hi⟩
     · -- pruned: only the directory itself can be entered
       simp only [hs2, Bool.false_eq_true, if_false, List.append_nil]
@@ -175,14 +183,14 @@ theorem tr_node_item (sel : List Str → Bool → Bool × Bool) (names : List St
             subst hev
             simp only [evItem, Option.some.injEq, Prod.mk.injEq] at hi
             rcases hi with ⟨rfl, rfl, rfl⟩
-            exact ⟨⟨_, Or.inl rfl, rfl, rfl, rfl⟩, hs1, chainT_top sel names n⟩
+            exact ⟨⟨_, Or.inl rfl, rfl, rfl, rfl, rfl⟩, hs1, chainT_top sel names n⟩
           · simp at hev
         · split at hev
           · simp only [List.mem_singleton] at hev
             subst hev
             simp [evItem] at hi
           · simp at hev
-      · rintro ⟨⟨e, he, h1, h2, h3⟩, h4, h5⟩
+      · rintro ⟨⟨e, he, h1, h2, h3, h3'⟩, h4, h5⟩
         rcases he with he | he
         · subst he
           simp only at h1 h2 h3
@@ -231,11 +239,14 @@ mutual
 theorem tr_node_leave (sel : List Str → Bool → Bool × Bool) (names : List Str) :
     ∀ (n : Node) (p : List Str) (exp : Option (List Str)), Ev.leave p exp ∈ (trNode sel names n).1 →
       HasItem names [n] p true false ∧ ChainT sel names.length p ∧
-        ((sel p true).2 = false → exp = none) ∧ ((sel p true).2 = true → ∃ names', exp = some names')
+        ((sel p true).2 = false → exp = none) ∧ ((sel p true).2 = true → ∃ names', exp = some names') ∧
+        (exp = none → (sel p true).1 = true)
   | .file n sz, p, exp => by
     unfold trNode; split <;> simp
-  | .other n, p, exp => by
-    unfold trNode; split <;> simp
+  | .other n s, p, exp => by
+    unfold trNode; split
+    · simp
+    · split <;> simp
   | .dir n ch, p, exp => by
     have ih := tr_list_leave sel (names ++ [n]) ch p exp
     unfold trNode HasItem
@@ -249,17 +260,18 @@ theorem tr_node_leave (sel : List Str → Bool → Bool × Bool) (names : List S
       simp only [List.mem_append] at hev
       rcases hev with (hev | hev) | hev
       · split at hev <;> simp at hev
-      · rcases ih hev with ⟨⟨e, he, h1, h2, h3⟩, h5, h6⟩
-        refine ⟨⟨e, Or.inr he, h1, h2, h3⟩, ?_, h6⟩
+      · rcases ih hev with ⟨⟨e, he, h1, h2, h3, h3'⟩, h5, h6⟩
+        refine ⟨⟨e, Or.inr he, h1, h2, h3, h3'⟩, ?_, h6⟩
         rcases entries_prefix' (names ++ [n]) ch e he with ⟨m, rest, hr⟩
         rw [← h1, hr] at h5 ⊢
         exact (chainT_below sel names n m rest).mpr ⟨hs2, h5⟩
       · split at hev
         · simp only [List.mem_singleton, Ev.leave.injEq] at hev
           rcases hev with ⟨rfl, rfl⟩
-          refine ⟨⟨_, Or.inl rfl, rfl, rfl, rfl⟩, chainT_top sel names n, ?_, ?_⟩
+          refine ⟨⟨_, Or.inl rfl, rfl, rfl, rfl, rfl⟩, chainT_top sel names n, ?_, ?_, ?_⟩
           · intro h; rw [hs2] at h; cases h
           · intro _; exact ⟨_, rfl⟩
+          · intro h; cases h
         · simp at hev
     · simp only [hs2, Bool.false_eq_true, if_false, List.append_nil]
       intro hev
@@ -269,14 +281,17 @@ theorem tr_node_leave (sel : List Str → Bool → Bool × Bool) (names : List S
       · split at hev
         · simp only [List.mem_singleton, Ev.leave.injEq] at hev
           rcases hev with ⟨rfl, rfl⟩
-          refine ⟨⟨_, Or.inl rfl, rfl, rfl, rfl⟩, chainT_top sel names n, ?_, ?_⟩
+          rename_i hcond
+          refine ⟨⟨_, Or.inl rfl, rfl, rfl, rfl, rfl⟩, chainT_top sel names n, ?_, ?_, ?_⟩
           · intro _; rfl
           · intro h; exact absurd h hs2
+          · intro _; simpa using hcond
         · simp at hev
 theorem tr_list_leave (sel : List Str → Bool → Bool × Bool) (names : List Str) :
     ∀ (l : List Node) (p : List Str) (exp : Option (List Str)), Ev.leave p exp ∈ (trList sel names l).1 →
       HasItem names l p true false ∧ ChainT sel names.length p ∧
-        ((sel p true).2 = false → exp = none) ∧ ((sel p true).2 = true → ∃ names', exp = some names')
+        ((sel p true).2 = false → exp = none) ∧ ((sel p true).2 = true → ∃ names', exp = some names') ∧
+        (exp = none → (sel p true).1 = true)
   | [], p, exp => by simp [trList]
   | c :: cs, p, exp => by
     have ih1 := tr_node_leave sel names c p exp
@@ -306,7 +321,7 @@ theorem dirListings_prefix (names : List Str) : ∀ (l : List Node) (p : List St
   | .file n sz :: r, p, ns, h => by
     simp only [dirListingsList, dirListingsNode, List.nil_append] at h
     exact dirListings_prefix names r p ns h
-  | .other n :: r, p, ns, h => by
+  | .other n s :: r, p, ns, h => by
     simp only [dirListingsList, dirListingsNode, List.nil_append] at h
     exact dirListings_prefix names r p ns h
   | .dir n ch :: r, p, ns, h => by
@@ -324,7 +339,7 @@ theorem tr_node_deldir (sel : List Str → Bool → Bool × Bool) (names : List 
       ChainT sel names.length p → (sel p true).2 = true →
         ∃ ev ∈ (trNode sel names n).1, delDir ev = some (p, some ns)
   | .file n sz, p, ns => by simp [dirListingsNode]
-  | .other n, p, ns => by simp [dirListingsNode]
+  | .other n s, p, ns => by simp [dirListingsNode]
   | .dir n ch, p, ns => by
     intro h hc hs
     have ih := tr_list_deldir sel (names ++ [n]) ch p ns
@@ -372,6 +387,125 @@ theorem tr_list_deldir (sel : List Str → Bool → Bool × Bool) (names : List 
       exact ⟨ev, List.mem_append.mpr (Or.inl hev), hd⟩
     · rcases ih2 h hc hs with ⟨ev, hev, hd⟩
       exact ⟨ev, List.mem_append.mpr (Or.inr hev), hd⟩
+end
+
+/-! ### the name list handed to `removeUnexpectedFiles` is the full listing of the snapshot directory
+(every node of the tree: unselected ones and sockets included) -/
+
+mutual
+theorem tr_node_deldir_names (sel : List Str → Bool → Bool × Bool) (names : List Str) :
+    ∀ (n : Node) (ev : Ev) (p ns : List Str), ev ∈ (trNode sel names n).1 →
+      delDir ev = some (p, some ns) → (p, ns) ∈ dirListingsNode names n
+  | .file n sz, ev, p, ns => by
+    unfold trNode
+    split
+    · intro h hd; simp only [List.mem_singleton] at h; subst h; simp [delDir] at hd
+    · intro h; simp at h
+  | .other n s, ev, p, ns => by
+    unfold trNode
+    split
+    · intro h; simp at h
+    · split
+      · intro h hd; simp only [List.mem_singleton] at h; subst h; simp [delDir] at hd
+      · intro h; simp at h
+  | .dir n ch, ev, p, ns => by
+    have ih := tr_list_deldir_names sel (names ++ [n]) ch ev p ns
+    unfold trNode
+    simp only [dirListingsNode, List.mem_cons, Prod.mk.injEq]
+    by_cases hs2 : (sel (names ++ [n]) true).2 = true
+    · simp only [hs2, if_true]
+      generalize trList sel (names ++ [n]) ch = r at ih
+      obtain ⟨evs, chr⟩ := r
+      simp only at ih ⊢
+      intro hev hd
+      simp only [List.mem_append] at hev
+      rcases hev with (hev | hev) | hev
+      · split at hev
+        · simp only [List.mem_singleton] at hev; subst hev; simp [delDir] at hd
+        · simp at hev
+      · exact Or.inr (ih hev hd)
+      · split at hev
+        · simp only [List.mem_singleton] at hev; subst hev
+          simp only [delDir, Option.some.injEq, Prod.mk.injEq] at hd
+          exact Or.inl ⟨hd.1.symm, hd.2.symm⟩
+        · simp only [List.mem_singleton] at hev; subst hev
+          simp only [delDir, Option.some.injEq, Prod.mk.injEq] at hd
+          exact Or.inl ⟨hd.1.symm, hd.2.symm⟩
+    · simp only [hs2, Bool.false_eq_true, if_false, List.append_nil]
+      intro hev hd
+      simp only [List.mem_append] at hev
+      rcases hev with hev | hev
+      · split at hev
+        · simp only [List.mem_singleton] at hev; subst hev; simp [delDir] at hd
+        · simp at hev
+      · split at hev
+        · simp only [List.mem_singleton] at hev; subst hev
+          simp [delDir] at hd
+        · simp at hev
+theorem tr_list_deldir_names (sel : List Str → Bool → Bool × Bool) (names : List Str) :
+    ∀ (l : List Node) (ev : Ev) (p ns : List Str), ev ∈ (trList sel names l).1 →
+      delDir ev = some (p, some ns) → (p, ns) ∈ dirListingsList names l
+  | [], ev, p, ns => by simp [trList]
+  | c :: cs, ev, p, ns => by
+    have ih1 := tr_node_deldir_names sel names c ev p ns
+    have ih2 := tr_list_deldir_names sel names cs ev p ns
+    unfold trList
+    generalize trNode sel names c = r1 at ih1
+    obtain ⟨e1, b1⟩ := r1
+    generalize trList sel names cs = r2 at ih2
+    obtain ⟨e2, b2⟩ := r2
+    simp only at ih1 ih2 ⊢
+    simp only [dirListingsList, List.mem_append]
+    intro hev hd
+    rcases hev with hev | hev
+    · exact Or.inl (ih1 hev hd)
+    · exact Or.inr (ih2 hev hd)
+end
+
+mutual
+theorem skipped_none_notin_node (sel : List Str → Bool → Bool × Bool) (names : List Str) :
+    ∀ (n : Node) (p : List Str), Ev.skipped p none ∉ (trNode sel names n).1
+  | .file n sz, p => by unfold trNode; split <;> simp
+  | .other n s, p => by
+    unfold trNode; split
+    · simp
+    · split <;> simp
+  | .dir n ch, p => by
+    have ih := skipped_none_notin sel (names ++ [n]) ch p
+    unfold trNode
+    by_cases hs2 : (sel (names ++ [n]) true).2 = true
+    · simp only [hs2, if_true]
+      generalize trList sel (names ++ [n]) ch = r at ih
+      obtain ⟨evs, chr⟩ := r
+      simp only at ih ⊢
+      intro hev
+      simp only [List.mem_append] at hev
+      rcases hev with (hev | hev) | hev
+      · split at hev <;> simp at hev
+      · exact ih hev
+      · split at hev <;> simp at hev
+    · simp only [hs2, Bool.false_eq_true, if_false, List.append_nil]
+      intro hev
+      simp only [List.mem_append] at hev
+      rcases hev with hev | hev
+      · split at hev <;> simp at hev
+      · split at hev <;> simp at hev
+theorem skipped_none_notin (sel : List Str → Bool → Bool × Bool) (names : List Str) :
+    ∀ (l : List Node) (p : List Str), Ev.skipped p none ∉ (trList sel names l).1
+  | [], p => by simp [trList]
+  | c :: cs, p => by
+    have ih1 := skipped_none_notin_node sel names c p
+    have ih2 := skipped_none_notin sel names cs p
+    unfold trList
+    generalize trNode sel names c = r1 at ih1
+    obtain ⟨e1, b1⟩ := r1
+    generalize trList sel names cs = r2 at ih2
+    obtain ⟨e2, b2⟩ := r2
+    simp only at ih1 ih2 ⊢
+    intro h
+    rcases List.mem_append.mp h with h | h
+    · exact ih1 h
+    · exact ih2 h
 end
 
 end Restic.Proofs.C20
